@@ -648,6 +648,9 @@ func (mf *MultiFileAppendable) appendableFor(off int64) (appendable.Appendable, 
 	if err != nil {
 		return nil, err
 	}
+	if simhook.Enabled {
+		simhook.Yield("multiapp-opened")
+	}
 
 	mf.mutex.Lock()
 	defer mf.mutex.Unlock()
@@ -749,6 +752,10 @@ func (mf *MultiFileAppendable) maybePrefetchAheadLocked(appID int64) {
 // pre-warmed chunk. Runs in its own goroutine; coalesces concurrent
 // callers via singleflight; bails on context cancellation.
 func (mf *MultiFileAppendable) prefetchOne(ctx context.Context, appID int64, key string, snap openAppendableSnapshot) {
+	if simhook.Enabled {
+		simhook.GoStart("prefetch")
+		defer simhook.GoEnd()
+	}
 	_, _, _ = mf.prefetchSf.Do(key, func() (interface{}, error) {
 		if ctx.Err() != nil {
 			return nil, ctx.Err()
